@@ -78,13 +78,7 @@ func c13PrintValues(o *out, vs []int64) {
 
 func c13Hist(c hcfg, vs []int64) (*hdrhist.Histogram, int) {
 	h := hdrhist.New(c.lo, c.hi, c.s)
-	rej := 0
-	for _, v := range vs {
-		if h.RecordValue(v) != nil {
-			rej++
-		}
-	}
-	return h, rej
+	return h, recordRuns(h, vs, len(vs)%3 == 1)
 }
 
 func c13PrintSparse(o *out, h *hdrhist.Histogram) {
